@@ -523,6 +523,9 @@ class BaseNetQASMConnection(abc.ABC):
 
         subroutine = self._builder.subrt_compile_subroutine(protosubroutine)
 
+        # The pending commands have been consumed, just like in a flush
+        self._builder._reset()
+
         return subroutine
 
     def commit_protosubroutine(
